@@ -52,10 +52,9 @@
 EXTENDS Integers, Sequences, FiniteSets, TLC, Json
 
 CONSTANTS Items,        \* 1..N
-          Foreign,      \* foreign thread names; "F" is one of them (it also runs the part before the loop starts)
-          Variants,     \* the variants explored (chosen in Init)
-          OwnSets(_, _), \* variant, scenario -> the sets of foreign threads that run an event loop of their own (chosen in Init)
-          Family(_)     \* variant -> set of scenarios [Items -> item scenario]
+          Foreign       \* foreign thread names; "F" is one of them (it also runs the part before the loop starts)
+\* (the variants, the scenario families and the sets of foreign threads with a loop of their own are chosen by
+\*  the Init of AsyncIOSchedMC.tla; the trace modules fix them per trace)
 
 LT == "L"       \* the thread that runs the loop
 FT == "F"       \* the first foreign thread
@@ -197,8 +196,9 @@ RunOps(s, i, th) ==
 DrvOps(s, i) == IF s[i].sw # LT THEN <<>>
                 ELSE <<Op("sched", i, 0)>> \o (IF s[i].dw = LT THEN <<Op("post", i, s[i].w)>> ELSE <<>>)
 
+\* ("up": F goes on only once the loop runs - a dispose() that races the START of the loop is outside the statement)
 Script(s, th) == IF th = FT
-                 THEN CatUpTo([i \in Items |-> PreOps(s, i)], N) \o <<Op("go", 0, 0)>> \o CatUpTo([i \in Items |-> RunOps(s, i, th)], N)
+                 THEN CatUpTo([i \in Items |-> PreOps(s, i)], N) \o <<Op("go", 0, 0), Op("up", 0, 0)>> \o CatUpTo([i \in Items |-> RunOps(s, i, th)], N)
                  ELSE CatUpTo([i \in Items |-> RunOps(s, i, th)], N)
 LScript(s) == CatUpTo([i \in Items |-> DrvOps(s, i)], N)
 
@@ -207,20 +207,18 @@ NoOp == [op |-> "none", i |-> 0, step |-> 0, tmp |-> 0]
 H(k, i, when) == [k |-> k, i |-> i, when |-> when, c |-> FALSE]
 TsRel(i) == scn[i].k = "ts" /\ scn[i].d > 0
 
-MechInit == /\ variant \in Variants
-            /\ scn \in Family(variant)
-            /\ own \in OwnSets(variant, scn)
-            /\ hs = IF LScript(scn) = <<>> THEN <<>> ELSE <<H("drv", 0, 0)>>      \* loop.call_soon(driver) before the start
-            /\ ready = IF LScript(scn) = <<>> THEN <<>> ELSE <<1>>
+MechInitFor(v, s, o) ==
+            /\ variant = v /\ scn = s /\ own = o
+            /\ hs = IF LScript(s) = <<>> THEN <<>> ELSE <<H("drv", 0, 0)>>      \* loop.call_soon(driver) before the start
+            /\ ready = IF LScript(s) = <<>> THEN <<>> ELSE <<1>>
             /\ timers = {}
             /\ hl = [i \in Items |-> <<>>]
             /\ fut = [i \in Items |-> "none"]
             /\ lp = [pc |-> "off", h |-> 0, todo |-> 0]
-            /\ q = [t \in Threads |-> IF t = LT THEN <<>> ELSE Script(scn, t)]
+            /\ q = [t \in Threads |-> IF t = LT THEN <<>> ELSE Script(s, t)]
             /\ ex = [t \in Threads |-> NoOp]
             /\ fwake = [t \in Foreign |-> 0] /\ go = FALSE /\ idled = 0 /\ woken = FALSE
 
-Init == MonInit /\ MechInit
 
 Busy(th) == ex[th].op # "none"
 NextH == Len(hs) + 1
@@ -229,9 +227,9 @@ Front(s) == SubSeq(s, 1, Len(s) - 1)
 SetEx(th, r) == ex' = [ex EXCEPT ![th] = r]
 StepTo(th, n) == ex' = [ex EXCEPT ![th].step = n]
 
-\* a thread may make a step of its own code: F always, the other foreign threads once F said go,
+\* a thread may make a step of its own code: F always, the other foreign threads once the loop runs,
 \* L only inside a callback
-MayRun(th) == IF th = LT THEN lp.pc = "cb" ELSE (th = FT \/ go)
+MayRun(th) == IF th = LT THEN lp.pc = "cb" ELSE (th = FT \/ loopTh # NoTh \/ lp.pc = "end")
 
 (* ---- fetching the next op of a script ------------------------------------------------------- *)
 NextOp(th) ==
@@ -241,6 +239,7 @@ NextOp(th) ==
        /\ CASE o.op = "go"    -> go' = TRUE /\ UNCHANGED <<ex, fwake>>
             [] o.op = "sleep" -> fwake' = [fwake EXCEPT ![th] = now + o.w] /\ UNCHANGED <<ex, go>>
             [] o.op = "await" -> it[o.i].ss = "ret" /\ UNCHANGED <<ex, fwake, go>>       \* blocks until the item was scheduled
+            [] o.op = "up"    -> loopTh # NoTh /\ UNCHANGED <<ex, fwake, go>>            \* blocks until the loop runs
             [] OTHER          -> SetEx(th, [op |-> o.op, i |-> o.i, step |-> 0, tmp |-> o.w]) /\ UNCHANGED <<fwake, go>>
     /\ UNCHANGED <<mon, variant, scn, hs, ready, timers, hl, fut, lp, idled, woken, own>>
 
@@ -259,23 +258,33 @@ SchedInline(th) ==
     /\ UNCHANGED <<variant, scn, hs, ready, timers, hl, fut, lp, q, fwake, go, idled, woken, own>>
 
 \* call_soon / call_soon_threadsafe / call_later: the handle exists and is queued.
-\* call_soon_threadsafe = append to the ready queue AND wake the selector (_write_to_self)
-Wakes(i) == scn[i].k = "ts" /\ variant # "nowake"
+\* call_soon_threadsafe = append to the ready queue, THEN wake the selector (_write_to_self) - two steps: the loop
+\* may take the handle before the wake-up arrives (which then wakes it for nothing), never the other way round
 SchedEnqueue(th) ==
     /\ MayRun(th) /\ ex[th].op = "sched" /\ ex[th].step = 1
     /\ LET i == ex[th].i  d == scn[i].d IN
        CASE TsRel(i) ->           \* stage 1, first half: post stage2 to the loop
               /\ hs' = Append(hs, H("s2", i, 0)) /\ ready' = Append(ready, NextH)
-              /\ woken' = (woken \/ Wakes(i))
-              /\ ex' = [ex EXCEPT ![th].step = 2, ![th].tmp = NextH] /\ UNCHANGED <<timers, hl>>
+              /\ ex' = [ex EXCEPT ![th].step = 6, ![th].tmp = NextH] /\ UNCHANGED <<timers, hl>>
          [] ~TsRel(i) /\ d = 0 ->
               /\ hs' = Append(hs, H("iv", i, 0)) /\ ready' = Append(ready, NextH)
-              /\ woken' = (woken \/ Wakes(i))
-              /\ hl' = [hl EXCEPT ![i] = <<NextH>>] /\ StepTo(th, 3) /\ UNCHANGED timers
+              /\ hl' = [hl EXCEPT ![i] = <<NextH>>] /\ StepTo(th, IF scn[i].k = "ts" THEN 7 ELSE 3) /\ UNCHANGED timers
          [] OTHER ->                \* AsyncIOScheduler.schedule_relative: call_later on the caller's thread
               /\ hs' = Append(hs, H("iv", i, now + d)) /\ timers' = timers \cup {NextH}
-              /\ hl' = [hl EXCEPT ![i] = <<NextH>>] /\ StepTo(th, 3) /\ UNCHANGED <<ready, woken>>
-    /\ UNCHANGED <<mon, variant, scn, fut, lp, q, fwake, go, idled, own>>
+              /\ hl' = [hl EXCEPT ![i] = <<NextH>>] /\ StepTo(th, 3) /\ UNCHANGED ready
+    /\ UNCHANGED <<mon, variant, scn, fut, lp, q, fwake, go, idled, woken, own>>
+
+\* the second half of call_soon_threadsafe: _write_to_self()
+Wake(th) ==
+    /\ MayRun(th)
+    /\ \/ ex[th].op = "sched" /\ ex[th].step \in {6, 7}
+       \/ ex[th].op = "disp" /\ ex[th].step = 12
+       \/ ex[th].op = "post" /\ ex[th].step = 1
+    /\ woken' = (woken \/ ~(variant = "nowake" /\ ex[th].op = "sched"))
+    /\ CASE ex[th].op = "sched" -> StepTo(th, IF ex[th].step = 6 THEN 2 ELSE 3)
+         [] ex[th].op = "disp"  -> StepTo(th, 11)
+         [] OTHER               -> SetEx(th, NoOp)
+    /\ UNCHANGED <<mon, variant, scn, hs, ready, timers, hl, fut, lp, q, fwake, go, idled, own>>
 
 \* stage 1, second half: handle.append(...)
 SchedAssign(th) ==
@@ -321,8 +330,8 @@ CancelSet(th) ==
 DispMarshal(th) ==
     /\ MayRun(th) /\ ex[th].op = "disp" /\ ex[th].step = 10
     /\ hs' = Append(hs, H("cx", ex[th].i, 0)) /\ ready' = Append(ready, NextH)
-    /\ fut' = [fut EXCEPT ![ex[th].i] = "wait"] /\ StepTo(th, 11) /\ woken' = TRUE
-    /\ UNCHANGED <<mon, variant, scn, timers, hl, lp, q, fwake, go, idled, own>>
+    /\ fut' = [fut EXCEPT ![ex[th].i] = "wait"] /\ StepTo(th, 12)
+    /\ UNCHANGED <<mon, variant, scn, timers, hl, lp, q, fwake, go, idled, woken, own>>
 
 \* future.result()
 DispAwait(th) ==
@@ -342,15 +351,15 @@ CancelDone(th) ==
     /\ UNCHANGED <<mon, variant, scn, hs, ready, timers, hl, lp, q, fwake, go, idled, woken, own>>
 
 \* the scenario's way of disposing on the loop thread: post a callback that calls dispose()
+\* (a foreign thread with call_soon_threadsafe - append, then Wake; the loop thread with call_soon / call_later)
 PostDispose(th) ==
-    /\ MayRun(th) /\ ex[th].op = "post"
+    /\ MayRun(th) /\ ex[th].op = "post" /\ ex[th].step = 0
     /\ LET i == ex[th].i  w == ex[th].tmp IN
        IF th = LT /\ w > 0
-       THEN hs' = Append(hs, H("dl", i, now + w)) /\ timers' = timers \cup {NextH} /\ UNCHANGED <<ready, woken>>
+       THEN hs' = Append(hs, H("dl", i, now + w)) /\ timers' = timers \cup {NextH} /\ UNCHANGED ready
        ELSE hs' = Append(hs, H("dl", i, 0)) /\ ready' = Append(ready, NextH) /\ UNCHANGED timers
-            /\ woken' = (woken \/ th # LT)                   \* call_soon_threadsafe from a foreign thread, call_soon on the loop
-    /\ SetEx(th, NoOp)
-    /\ UNCHANGED <<mon, variant, scn, hl, fut, lp, q, fwake, go, idled, own>>
+    /\ IF th = LT THEN SetEx(th, NoOp) ELSE StepTo(th, 1)
+    /\ UNCHANGED <<mon, variant, scn, hl, fut, lp, q, fwake, go, idled, woken, own>>
 
 (* ---- callbacks that exist only on the loop ------------------------------------------------------ *)
 \* interval(): invoke_action
@@ -376,8 +385,9 @@ Stage2Assign ==
 (* ---- the loop thread: run_forever / _run_once ----------------------------------------------------- *)
 DueBound == IF variant = "early" THEN now + 1 ELSE now
 Due == {h \in timers : hs[h].when <= DueBound}
-Live == {h \in timers : ~hs[h].c}
 Before(a, b) == hs[a].when < hs[b].when \/ (hs[a].when = hs[b].when /\ a <= b)
+\* _run_once first drops the cancelled timers at the HEAD of the heap (those no live timer precedes)
+HeadCancelled == {h \in timers : hs[h].c /\ \A g \in timers : ~hs[g].c => Before(h, g)}
 RECURSIVE Ordered(_)
 Ordered(S) == IF S = {} THEN <<>>
               ELSE LET m == CHOOSE x \in S : \A y \in S : Before(x, y) IN <<m>> \o Ordered(S \ {m})
@@ -390,17 +400,20 @@ LoopStart ==
 
 \* top of _run_once with nothing ready and no timer due: the loop blocks in select()
 Poll ==
-    /\ lp.pc = "top" /\ ready = <<>> /\ Due = {}
+    /\ lp.pc = "top" /\ ready = <<>> /\ Due \ HeadCancelled = {}
     /\ lp' = [lp EXCEPT !.pc = "sel"]
-    /\ UNCHANGED <<mon, variant, scn, hs, ready, timers, hl, fut, q, ex, fwake, go, idled, woken, own>>
+    /\ timers' = timers \ HeadCancelled
+    /\ UNCHANGED <<mon, variant, scn, hs, ready, hl, fut, q, ex, fwake, go, idled, woken, own>>
 
 \* one iteration: select() returns at once (something is ready), or it was woken through the self-pipe, or a timer
 \* is due; the self-pipe is drained; due timers join the ready queue; ntodo = len(ready)
 RunOnce ==
-    /\ \/ lp.pc = "top" /\ (ready # <<>> \/ Due # {})
+    /\ \/ lp.pc = "top" /\ (ready # <<>> \/ Due \ HeadCancelled # {})
        \/ lp.pc = "sel" /\ (woken \/ Due # {})
-    /\ ready' = ready \o Ordered(Due) /\ timers' = timers \ Due
-    /\ lp' = [lp EXCEPT !.pc = "iter", !.todo = Len(ready) + Cardinality(Due)]
+    /\ LET drop == IF lp.pc = "top" THEN HeadCancelled ELSE {}       \* (the purge precedes select())
+           due  == Due \ drop IN
+       /\ ready' = ready \o Ordered(due) /\ timers' = (timers \ drop) \ due
+       /\ lp' = [lp EXCEPT !.pc = "iter", !.todo = Len(ready) + Cardinality(due)]
     /\ idled' = 0 /\ woken' = FALSE
     /\ UNCHANGED <<mon, variant, scn, hs, hl, fut, q, ex, fwake, go, own>>
 
@@ -438,23 +451,22 @@ CbEnd ==
 FDone == \A f \in Foreign : q[f] = <<>> /\ ~Busy(f)
 Asleep == lp.pc = "sel" /\ ~woken /\ Due = {}
 
-\* select() with no timeout: nothing ready, no timer
+\* select() with no timeout: nothing ready, no timer, no wake-up pending
 LoopIdle ==
-    /\ Asleep /\ Live = {} /\ idled = 0
+    /\ Asleep /\ timers = {} /\ idled = 0 /\ ready = <<>>
     /\ MIdle(LT, now) /\ idled' = 1
-    /\ timers' = {}                                     \* cancelled timers are dropped from the heap
-    /\ UNCHANGED <<variant, scn, hs, ready, hl, fut, lp, q, ex, fwake, go, woken, own>>
+    /\ UNCHANGED <<variant, scn, hs, ready, timers, hl, fut, lp, q, ex, fwake, go, woken, own>>
 
 \* handles are in the ready queue but nobody woke the selector, and nobody is left who could: for the property this
 \* is an idle loop as well (reported once, when every other thread has finished)
 LoopAsleepWithWork ==
-    /\ Asleep /\ Live = {} /\ idled = 1 /\ FDone /\ ready # <<>>
+    /\ Asleep /\ timers = {} /\ idled \in {0, 1} /\ FDone /\ ready # <<>>
     /\ MIdle(LT, now) /\ idled' = 2
     /\ UNCHANGED <<variant, scn, hs, ready, timers, hl, fut, lp, q, ex, fwake, go, woken, own>>
 
 \* the harness stops the loop at quiescence (asleep, no timer, every other thread finished)
 LoopStop ==
-    /\ Asleep /\ Live = {} /\ FDone /\ (IF ready = <<>> THEN idled = 1 ELSE idled = 2)
+    /\ Asleep /\ timers = {} /\ FDone /\ (IF ready = <<>> THEN idled = 1 ELSE idled = 2)
     /\ lp' = [lp EXCEPT !.pc = "end"]
     /\ MLoopStop(LT, now)
     /\ UNCHANGED <<variant, scn, hs, ready, timers, hl, fut, q, ex, fwake, go, idled, woken, own>>
@@ -462,7 +474,7 @@ LoopStop ==
 \* time passes only while the loop thread is not inside an iteration, and only if somebody waits for it
 Tick ==
     /\ lp.pc \in {"off", "end", "sel"}
-    /\ ((\E h \in Live : hs[h].when > now) \/ \E f \in Foreign : fwake[f] > now)
+    /\ ((\E h \in timers : hs[h].when > now) \/ \E f \in Foreign : fwake[f] > now)
     /\ now' = now + 1
     /\ UNCHANGED <<loopTh, gen, it, lost, mech>>
 
@@ -471,7 +483,7 @@ Finished == AllDone /\ UNCHANGED vars
 
 ThreadStep(th) == \/ NextOp(th) \/ SchedCall(th) \/ SchedInline(th) \/ SchedEnqueue(th) \/ SchedAssign(th) \/ SchedRet(th)
                   \/ DispCall(th) \/ CancelPop(th) \/ CancelSet(th) \/ DispMarshal(th) \/ DispAwait(th) \/ DispRet(th)
-                  \/ CancelDone(th) \/ PostDispose(th)
+                  \/ CancelDone(th) \/ PostDispose(th) \/ Wake(th)
 
 Next == \/ \E th \in Threads : ThreadStep(th)
         \/ RunInterval \/ Stage2Timer \/ Stage2Assign
@@ -486,8 +498,11 @@ TypeOK == /\ loopTh \in {NoTh, LT} /\ gen \in 0..2 /\ now \in 0..40
 \* a future that somebody waits for is eventually set: no behaviour gets stuck (CHECK_DEADLOCK TRUE + Finished)
 \* at the end every disposed item whose dispose was covered and returned before a start did not start;
 \* and every item nobody disposed has started exactly once
-\* a handle never sits in the ready queue of a loop that sleeps with nobody having woken it
-NoMissedWakeup == ~(lp.pc = "sel" /\ ready # <<>> /\ ~woken)
+\* a handle never sits in the ready queue of a loop that sleeps without a wake-up being there or on its way
+WakeComing == \E th \in Threads : \/ ex[th].op = "sched" /\ ex[th].step \in {6, 7}
+                                  \/ ex[th].op = "disp" /\ ex[th].step = 12
+                                  \/ ex[th].op = "post" /\ ex[th].step = 1
+NoMissedWakeup == (lp.pc = "sel" /\ ready # <<>> /\ ~woken) => WakeComing
 EndOK == AllDone => \A i \in Items : ((it[i].ss = "ret" /\ it[i].ds = "none") => it[i].n = 1)
 
 (* ---- export of the scenario family (Binding A half: the scenarios the replayer performs) ----------- *)
